@@ -145,6 +145,25 @@ def c09(ctx):
              lambda: runner.lane_facts(ctx, 'drv_mem.cpp', 'mem', ALL_GROUPS, env_extra={'MEMMODE': 'footprint'}))
 
 
+DENOM_ASSUME = [
+    'divisor sets: all non-zero 8-bit values; 16/32/64-bit boundary lattice + 1, -1, MIN, MAX, powers of two and neighbours + seeded random',
+    'numerators per divisor: 0, +-1, MIN, MAX, the multiples of d nearest both range ends and their neighbours, powers of two, seeded random (all 256 at 8 bits)',
+    'internal fields of a denominator (multiplier, shifts) are never compared',
+]
+
+
+def c14(ctx):
+    ctx.assumptions += LANE_ASSUME[2:] + DENOM_ASSUME
+    _with_mc(ctx, lambda: mc_intlane(ctx, ['C05']),
+             lambda: runner.ordered_traces(ctx, 'drv_denom.cpp', 'sdenom', INT_GROUPS, 'TraceDenom', '.den'))
+
+
+def c15(ctx):
+    ctx.assumptions += LANE_ASSUME[2:] + DENOM_ASSUME
+    _with_mc(ctx, lambda: mc_intlane(ctx, ['C05']),
+             lambda: runner.ordered_traces(ctx, 'drv_denom.cpp', 'vdenom', INT_GROUPS, 'TraceDenom', '.den'))
+
+
 CHECKS = {
-    'C01': c01, 'C02': c02, 'C03': c03, 'C04': c04, 'C05': c05, 'C06': c06, 'C07': c07, 'C08': c08, 'C09': c09,
+    'C01': c01, 'C02': c02, 'C03': c03, 'C04': c04, 'C05': c05, 'C06': c06, 'C07': c07, 'C08': c08, 'C09': c09, 'C14': c14, 'C15': c15,
 }
